@@ -32,7 +32,7 @@ type L = []interface{}
 // baseDoc uses every documented key of every section.
 func baseDoc(envFile string) M {
 	return M{
-		"import":    L{},
+		"import":    L{"inc.yaml"},
 		"debug":     false,
 		"output":    "raw",
 		"dryrun":    false,
@@ -126,6 +126,26 @@ func mutate(doc M, pos []string, shape string) (M, bool) {
 		}
 	}
 	switch shape {
+	case "intkey", "boolkey", "nullkey":
+		// a key that is not a string next to the entry's fields (only YAML can express it)
+		c, ok := parent[key].(M)
+		if !ok {
+			return nil, false
+		}
+		g := map[interface{}]interface{}{}
+		for k, v := range c {
+			g[k] = v
+		}
+		switch shape {
+		case "intkey":
+			g[2024] = "x"
+		case "boolkey":
+			g[true] = "x"
+		default:
+			g[nil] = "x"
+		}
+		parent[key] = g
+		return d, true
 	case "deleted":
 		delete(parent, key)
 		return d, true
@@ -227,8 +247,8 @@ func CheckC15(env *core.Env, rep *core.Report) *core.Result {
 		cases = append(cases, c)
 	}
 	e.note("Shapes", r, fmt.Sprintf("%d cases: (position, shape) over the configuration schema and env_file line sequences; Total holds", len(cases)))
-	if len(cases) != 1469 {
-		core.Broken("Shapes emitted %d cases, expected 1469", len(cases))
+	if len(cases) != 1631 {
+		core.Broken("Shapes emitted %d cases, expected 1631", len(cases))
 	}
 	sort.Slice(cases, func(i, j int) bool { return core.JSON(cases[i]) < core.JSON(cases[j]) })
 	var runs, skipped int64
@@ -261,6 +281,9 @@ func CheckC15(env *core.Env, rep *core.Report) *core.Result {
 			continue
 		}
 		jobs = append(jobs, job{c, "yaml"})
+		if strings.HasSuffix(c.Shape, "key") && c.Shape != "unknownkey" {
+			continue
+		}
 		if thorough || rng.Intn(3) == 0 {
 			jobs = append(jobs, job{c, "json"})
 		}
@@ -273,6 +296,7 @@ func CheckC15(env *core.Env, rep *core.Report) *core.Result {
 		d := env.Sub("shp")
 		envf := filepath.Join(d, "x.env")
 		_ = ioutil.WriteFile(envf, []byte("K=v\n"), 0o644)
+		_ = ioutil.WriteFile(filepath.Join(d, "inc.yaml"), []byte("tasks:\n  included:\n    command: [\"true\"]\n    env:\n      IK: iv\n"), 0o644)
 		base := baseDoc(envf)
 		var data []byte
 		if j.c.Shape == "duplicated" {
@@ -364,7 +388,9 @@ func CheckC15(env *core.Env, rep *core.Report) *core.Result {
 		d := env.Sub("bytes")
 		envf := filepath.Join(d, "x.env")
 		_ = ioutil.WriteFile(envf, []byte("K=v\n"), 0o644)
-		data, ok := serialise(baseDoc(envf), format)
+		bd := baseDoc(envf)
+		bd["import"] = L{}
+		data, ok := serialise(bd, format)
 		if !ok {
 			core.Broken("cannot serialise the base document as %s", format)
 		}
@@ -382,6 +408,9 @@ func CheckC15(env *core.Env, rep *core.Report) *core.Result {
 				[]byte("a: &a [*a]\ntasks: *a\n"), // self-referential anchor
 				[]byte("base: &b\n  command: [\"true\"]\ntasks:\n  t:\n    <<: *b\n  u: *b\npipelines:\n  p:\n    - task: t\n"),
 				[]byte("x: &x {y: *x}\n"),
+				[]byte("import: [\".\"]\ntasks:\n  t:\n    command: [\"true\"]\n"), // the file's own directory
+				[]byte("import: [\"../\" ]\ntasks:\n  t:\n    command: [\"true\"]\n"),
+				[]byte("import: [\"cfg.yaml\", \".\", \".\"]\ntasks:\n  t:\n    command: [\"true\"]\n"),
 				[]byte("tasks: &t\n  t: {command: [\"true\"]}\npipelines: *t\n"),
 				[]byte("a: &a [\"l\",\"l\",\"l\",\"l\",\"l\",\"l\",\"l\",\"l\",\"l\"]\nb: &b [*a,*a,*a,*a,*a,*a,*a,*a,*a]\nc: &c [*b,*b,*b,*b,*b,*b,*b,*b,*b]\nd: &d [*c,*c,*c,*c,*c,*c,*c,*c,*c]\ne: &e [*d,*d,*d,*d,*d,*d,*d,*d,*d]\nf: &f [*e,*e,*e,*e,*e,*e,*e,*e,*e]\ntasks: *f\n"),
 			)
